@@ -233,31 +233,23 @@ theorem c05_concat_int (lens : List Nat) (i : Int) (h : -(total lens : Int) ≤ 
 theorem c05_concat_mask (lens : List Nat) (m : List Bool) (h : m.length = total lens) :
     concatHead lens (.mask m) = concatSpec lens (.mask m) := concatHead_mask lens m h
 
-/-- **Concatenated indexer, positive-step slice head index** (any start/stop incl. negative and
-    `None`, any stride, any number and sizes of parts incl. empty parts): the per-part slices
-    `slice(chunk_start, stop - offset, stride)` read exactly `range(*slice.indices(total))`, in
-    order, whenever the selection is non-empty. -/
-theorem c05_concat_slice_partial (lens : List Nat) (a b c : Option Int) (hc : c.getD 1 > 0)
-    (s e st : Int) (hi : sliceIndices (total lens) a b c = some (s, e, st)) (hne : s < e) :
+/-- **Concatenated indexer, positive-step slice head index**: every start/stop (negative, `None`,
+    out of range), every stride > 0, empty selections included, any number (≥ 1) and sizes of parts
+    incl. empty parts: the per-part slices `slice(chunk_start, stop - offset, stride)` read exactly
+    `range(*slice.indices(total))`, in order.  (Full since the repair of C05-concat-empty-slice in
+    /repo commit 9b8b3cd; before it an empty slice whose start lay in a later part than its stop
+    raised ValueError.) -/
+theorem c05_concat_slice (lens : List Nat) (hlens : lens ≠ []) (a b c : Option Int) (hc : c.getD 1 > 0) :
     concatHead lens (.slice a b c) = concatSpec lens (.slice a b c) :=
-  concatHead_slice lens a b c hc s e st hi hne
+  concatHead_slice lens hlens a b c hc
 
-/-- the same for an empty selection, provided the part holding the start is not after the part
-    holding the stop (so at least one part is consulted) -/
-theorem c05_concat_slice_empty_partial (lens : List Nat) (a b c : Option Int) (hc : c.getD 1 > 0)
-    (s e st : Int) (hi : sliceIndices (total lens) a b c = some (s, e, st)) (hlens : lens ≠ [])
-    (hord : findIndexer (partStarts lens) s ≤ findIndexer (partStarts lens) e) :
-    concatHead lens (.slice a b c) = concatSpec lens (.slice a b c) :=
-  concatHead_slice_ord lens a b c hc s e st hi hlens hord
-
-/-- the full statement (every positive-step slice) is false of the code: an empty slice whose
-    start lies in a later part than its stop raises ValueError (known finding
-    C05-concat-empty-slice; replayed on the implementation by the harness) -/
-theorem c05_concat_slice_full_is_false :
-    ¬ ∀ (lens : List Nat) (a b c : Option Int), c.getD 1 > 0 →
+/-- negative-step head slices are NOT covered: the code answers with other rows than numpy
+    (known finding C05-concat-negative-step; replayed on the implementation by the harness) -/
+theorem c05_concat_slice_negstep_is_false :
+    ¬ ∀ (lens : List Nat) (a b c : Option Int), lens ≠ [] → c.getD 1 ≠ 0 →
       concatHead lens (.slice a b c) = concatSpec lens (.slice a b c) := by
   intro h
-  have := h [3, 2] (some 4) (some 1) none (by decide)
+  have := h [4, 1, 4, 2] (some (-3)) (some 9) (some (-3)) (by decide) (by decide)
   revert this; decide
 
 /-! ### Non-vacuity and witnesses -/
@@ -272,6 +264,7 @@ example : getitem1 30 (.slice none none none) (.list [1, 2, 5, 6]) = .ok (.many 
 example : concatHead [2, 0, 3] (.int (-1)) = .ok (true, [(2, 2)]) := by decide
 example : concatHead [2, 3] (.mask [false, true, true, false, true]) = .ok (false, [(0, 1), (1, 0), (1, 2)]) := by decide
 example : sliceIndices (total [3, 0, 3]) (some (-5)) none (some 2) = some (1, 6, 2) ∧ (1 : Int) < 6 := by decide
+example : concatHead [3, 2] (.slice (some 4) (some 1) none) = .ok (false, []) := by decide
 example : concatHead [3, 0, 3] (.slice (some (-5)) none (some 2)) = .ok (false, [(0, 1), (2, 0), (2, 2)]) := by decide
 example : concatHead [3, 3] (.slice (some 1) (some 6) (some 2)) = concatSpec [3, 3] (.slice (some 1) (some 6) (some 2)) := by decide
 example : concatHead [2, 0, 3] (.list [1, 2, 4]) = concatSpec [2, 0, 3] (.list [1, 2, 4]) := by decide
